@@ -1,6 +1,7 @@
 package error
 
 import (
+	"errors"
 	"fmt"
 	"strings"
 )
@@ -426,5 +427,6 @@ func InputValueNotFound(tag string) *RuntimeError {
 
 // // SLOT
 func NewErrorSLOT(info string) error {
-	return fmt.Errorf(info)
+	// the text is the message, not a format: it may quote source text that contains '%'
+	return errors.New(info)
 }
